@@ -281,3 +281,38 @@ Definition expand_default (tmpl dflt : str) (envs : list (str * str)) : str :=
                  | k => replace_all (S (length acc)) (brace k) (snd kv) acc
                  end) envs r
   end.
+
+(* ---------- internal/clang mergeCompilerFlags / mergeLinkerFlags ---------- *)
+Definition merge_compiler (env_cc env_c : str) (cfg_cc cfg_c : list str) : list str :=
+  pc_split env_cc ++ pc_split env_c ++ cfg_cc ++ cfg_c.
+Definition merge_linker (env_cc env_ld : str) (cfg_ld : list str) : list str :=
+  pc_split env_cc ++ pc_split env_ld ++ cfg_ld.
+
+(* ---------- internal/build addGlobalStringWith: -X importpath.name=value ---------- *)
+Definition EQ := 61.  Definition DOT := 46.
+
+Fixpoint index_of (c : N) (s : str) : option nat :=
+  match s with
+  | [] => None
+  | b :: s' => if b =? c then Some O else option_map S (index_of c s')
+  end.
+
+Fixpoint last_index_of (c : N) (s : str) : option nat :=
+  match s with
+  | [] => None
+  | b :: s' => match last_index_of c s' with
+               | Some n => Some (S n)
+               | None => if b =? c then Some O else None
+               end
+  end.
+
+(* (pkg, name, value), or None where the code panics with errXflags *)
+Definition xflag_split (arg : str) : option (str * str * str) :=
+  match index_of EQ arg with
+  | None => None
+  | Some eq =>
+    match last_index_of DOT (firstn (S eq) arg) with
+    | None => None
+    | Some dot => Some (firstn dot arg, firstn (eq - S dot)%nat (skipn (S dot) arg), skipn (S eq) arg)
+    end
+  end.
